@@ -24,6 +24,8 @@ type GOpt struct {
 	B    bool
 	Res  int // resolver id, -1 = nil
 	Ms   []bool
+	Scope uint8 // mwfor: any HandlerScope value
+	N    int   // maxparams
 }
 type ROpt struct {
 	Kind  string // redirect ignore clientip annot mw
@@ -58,6 +60,28 @@ type Pat struct {
 	Path    string // request path matching the pattern
 	TsrPath string // path with the trailing slash toggled, "" when no tsr probe is generated for this shape
 	Valid   bool
+	Term    string // compact Coq term for very long patterns ("" = write the pattern literally)
+}
+
+func patTerm(p Pat) string {
+	if p.Term != "" {
+		return p.Term
+	}
+	return hx.Bytes(p.Pattern)
+}
+
+// strTerm writes a string the route returned; a string equal to a very long pattern is written with the pattern's compact term
+func strTerm(s string, p Pat) string {
+	if p.Term != "" && s == p.Pattern {
+		return p.Term
+	}
+	return hx.Bytes(s)
+}
+
+// manyWildcards is "/w" followed by n times "/{a}" (n wildcards), with the compact Coq term for it
+func manyWildcards(n int) Pat {
+	return Pat{Pattern: "/w" + strings.Repeat("/{a}", n), Path: "/zz/not/requested", Valid: true,
+		Term: fmt.Sprintf("(S2B \"/w\" ++ brep %s (S2B \"/{a}\"))", hx.N(uint64(n)))}
 }
 
 // ---------- keys, resolvers, probe middleware ----------
@@ -188,7 +212,9 @@ func globalOption(g GOpt, rec *probeRec, last bool) fox.GlobalOption {
 		}
 		return fox.WithMiddleware(fns(g.Ms)...)
 	case "mwfor":
-		return fox.WithMiddlewareFor(fox.RouteHandler|fox.NoRouteHandler, fns(g.Ms)...)
+		return fox.WithMiddlewareFor(fox.HandlerScope(g.Scope), fns(g.Ms)...)
+	case "maxparams":
+		return fox.WithMaxRouteParams(uint16(g.N))
 	case "norouteh":
 		return fox.WithNoRouteHandler(handlerOrNil(g.B))
 	case "nomethodh":
@@ -243,7 +269,9 @@ func goptTerm(g GOpt) string {
 	case "mw":
 		return "(GMw " + bools(g.Ms) + ")"
 	case "mwfor":
-		return "(GMwFor " + bools(g.Ms) + ")"
+		return "(GMwFor " + hx.N(uint64(g.Scope)) + " " + bools(g.Ms) + ")"
+	case "maxparams":
+		return "(GMaxParams " + hx.N(uint64(g.N)) + ")"
 	case "norouteh":
 		return "(GNoRouteH " + hx.Bool(g.B) + ")"
 	case "nomethodh":
@@ -308,7 +336,7 @@ func errTerm(err error) string {
 	}
 	return "(Some ErrOther)"
 }
-func snapTerm(rte *fox.Route) string {
+func snapTerm(rte *fox.Route, p Pat) string {
 	res := "None"
 	if r := rte.ClientIPResolver(); r != nil {
 		ip, err := r.ClientIP(nil)
@@ -318,8 +346,8 @@ func snapTerm(rte *fox.Route) string {
 			res = "(Some 255)"
 		}
 	}
-	return fmt.Sprintf("(mkSnap %s %s %s %d %s %s %s %d)", hx.Bytes(rte.Pattern()), hx.Bytes(rte.Hostname()), hx.Bytes(rte.Path()),
-		rte.ParamsLen(), hx.Bool(rte.RedirectTrailingSlashEnabled()), hx.Bool(rte.IgnoreTrailingSlashEnabled()), res, fox.VerifRouteMws(rte).Len)
+	return fmt.Sprintf("(mkSnap %s %s %s (N.to_nat %s) %s %s %s %d)", strTerm(rte.Pattern(), p), strTerm(rte.Hostname(), p), strTerm(rte.Path(), p),
+		hx.N(uint64(rte.ParamsLen())), hx.Bool(rte.RedirectTrailingSlashEnabled()), hx.Bool(rte.IgnoreTrailingSlashEnabled()), res, fox.VerifRouteMws(rte).Len)
 }
 
 // ---------- running ----------
@@ -362,6 +390,8 @@ func runOp(f *fox.Router, rec *probeRec, pats []Pat, o Op) (obs string) {
 			rte, err = f.Handle(http.MethodGet, p.Pattern, routeHandlerOrNil(o.Handler, rec), opts...)
 		case "VUpdate":
 			rte, err = f.Update(http.MethodGet, p.Pattern, routeHandlerOrNil(o.Handler, rec), opts...)
+		case "VOnly":
+			rte, err = f.NewRoute(p.Pattern, routeHandlerOrNil(o.Handler, rec), opts...)
 		default:
 			rte, err = f.NewRoute(p.Pattern, routeHandlerOrNil(o.Handler, rec), opts...)
 			if err == nil {
@@ -371,7 +401,7 @@ func runOp(f *fox.Router, rec *probeRec, pats []Pat, o Op) (obs string) {
 		if err != nil {
 			return "(ObsErr " + errTerm(err) + " None)"
 		}
-		return "(ObsErr None (Some " + snapTerm(rte) + "))"
+		return "(ObsErr None (Some " + snapTerm(rte, p) + "))"
 	case "probe":
 		*rec = probeRec{}
 		method, path := http.MethodGet, p.Path
@@ -460,7 +490,7 @@ func runOp(f *fox.Router, rec *probeRec, pats []Pat, o Op) (obs string) {
 	if rte == nil {
 		return "(ObsSnap None)"
 	}
-	return "(ObsSnap (Some " + snapTerm(rte) + "))"
+	return "(ObsSnap (Some " + snapTerm(rte, p) + "))"
 }
 
 // ---------- generators ----------
@@ -493,7 +523,7 @@ func (g *gen) gopts(invalidPct int, allowDefault bool) []GOpt {
 		case r < 62:
 			out = append(out, GOpt{Kind: "mw", Ms: g.ms(invalidPct)})
 		case r < 66:
-			out = append(out, GOpt{Kind: "mwfor", Ms: g.ms(invalidPct)})
+			out = append(out, GOpt{Kind: "mwfor", Scope: uint8(g.rnd.Intn(256)), Ms: g.ms(invalidPct)})
 		case r < 70:
 			out = append(out, GOpt{Kind: "norouteh", B: !g.rnd.Pct(invalidPct)})
 		case r < 76:
@@ -729,7 +759,7 @@ func main() {
 			f, err = fox.New(opts...)
 		}()
 		gterm := hx.ListOf(gopts, goptTerm)
-		pterm := hx.ListOf(pats, func(p Pat) string { return hx.Bytes(p.Pattern) })
+		pterm := hx.ListOf(pats, patTerm)
 		oterm := hx.ListOf(ops, opTerm)
 		key := gterm + "|" + pterm + "|" + oterm
 		if seen[key] {
@@ -843,6 +873,89 @@ func main() {
 				ropts = append(ropts, ROpt{Kind: ts[i].k, B: ts[i].b})
 			}
 			add(gopts, []Pat{pat}, []Op{{Kind: "create", Via: "VHandle", Key: 0, Handler: true, Opts: ropts}, {Kind: "probe", Key: 0, Probe: 1}, {Kind: "access", Key: 0}}, "exhaustive-ts")
+		}
+	}
+	// exhaustive: WithMiddlewareFor with EVERY scope value 0..255 x {valid, nil, valid then nil}: the nil check does
+	// not depend on the scope, and a valid middleware is registered whatever the scope is
+	for sc := 0; sc < 256; sc++ {
+		for _, ms := range [][]bool{{true}, {false}, {true, false}} {
+			add([]GOpt{{Kind: "mwfor", Scope: uint8(sc), Ms: ms}, {Kind: "mw", Ms: []bool{true}}}, []Pat{pat},
+				[]Op{{Kind: "create", Via: "VOnly", Key: 0, Handler: true}}, "exhaustive-scope-nil")
+		}
+	}
+	// exhaustive: nil in every position of middleware lists up to length 3 (global WithMiddleware, WithMiddlewareFor,
+	// route WithMiddleware), nil special handlers, every annotation key kind x nil / non-nil value, nil handler x every
+	// way of creating a route
+	var lists [][]bool
+	for n := 1; n <= 3; n++ {
+		for bits := 0; bits < 1<<n; bits++ {
+			l := make([]bool, n)
+			for i := range l {
+				l[i] = bits&(1<<i) != 0
+			}
+			lists = append(lists, l)
+		}
+	}
+	probeOpt := GOpt{Kind: "mw", Ms: []bool{true}}
+	one := []Op{{Kind: "create", Via: "VHandle", Key: 0, Handler: true}, {Kind: "access", Key: 0}}
+	for _, l := range lists {
+		add([]GOpt{{Kind: "mw", Ms: l}, probeOpt}, []Pat{pat}, one, "exhaustive-args")
+		add([]GOpt{{Kind: "mwfor", Scope: 128, Ms: l}, probeOpt}, []Pat{pat}, one, "exhaustive-args")
+		for _, via := range []string{"VHandle", "VUpdate", "VNewRoute", "VOnly"} {
+			add([]GOpt{probeOpt}, []Pat{pat}, []Op{{Kind: "create", Via: "VHandle", Key: 0, Handler: true},
+				{Kind: "create", Via: via, Key: 0, Handler: true, Opts: []ROpt{{Kind: "mw", Ms: l}}}, {Kind: "access", Key: 0}}, "exhaustive-args")
+		}
+	}
+	for _, k := range []string{"norouteh", "nomethodh", "optionsh"} {
+		for _, b := range []bool{true, false} {
+			add([]GOpt{{Kind: k, B: b}, probeOpt}, []Pat{pat}, one, "exhaustive-args")
+			add([]GOpt{probeOpt, {Kind: "nomethod", B: false}, {Kind: k, B: b}, probeOpt}, []Pat{pat}, one, "exhaustive-args")
+		}
+	}
+	for _, kk := range []string{"hash", "nil", "unhashdyn", "noncomp"} {
+		for id := 0; id < 4; id++ {
+			for _, val := range []int{-1, 7} {
+				for _, via := range []string{"VHandle", "VOnly"} {
+					add([]GOpt{probeOpt}, []Pat{pat}, []Op{{Kind: "create", Via: via, Key: 0, Handler: true,
+						Opts: []ROpt{{Kind: "annot", KeyK: "hash", KeyID: 1, Val: 3}, {Kind: "annot", KeyK: kk, KeyID: id, Val: val}}}, {Kind: "annotget", Key: 0, AKey: id}}, "exhaustive-args")
+				}
+			}
+		}
+	}
+	for _, via := range []string{"VHandle", "VUpdate", "VNewRoute", "VOnly"} {
+		add([]GOpt{probeOpt}, []Pat{pat}, []Op{{Kind: "create", Via: "VHandle", Key: 0, Handler: true}, {Kind: "create", Via: via, Key: 0, Handler: false},
+			{Kind: "create", Via: via, Key: 0, Handler: false, Opts: []ROpt{{Kind: "mw", Ms: []bool{false}}}}, {Kind: "access", Key: 0}}, "exhaustive-args")
+	}
+	// the wildcard limit: NewRoute (no registration) on patterns with n wildcards around every limit, the default
+	// math.MaxUint16 included (the harness builds the patterns and counts the wildcards; Coq gets a compact term)
+	type lim struct {
+		set bool
+		n   int
+	}
+	for _, l := range []lim{{false, 0}, {true, 65535}, {true, 0}, {true, 1}, {true, 3}, {true, 255}, {true, 256}, {true, 300}} {
+		limit := 65535
+		if l.set {
+			limit = l.n
+		}
+		counts := []int{0, 1, limit - 1, limit, limit + 1, limit + 2}
+		if limit == 65535 { // quarter-megabyte patterns: a handful is enough
+			counts = []int{3, limit, limit + 1}
+			if !l.set {
+				counts = append(counts, limit+2, 65536+300)
+				if tier == "thorough" {
+					counts = append(counts, limit-1, 2*65536, 2*65536+1)
+				}
+			}
+		}
+		for _, n := range counts {
+			if n < 0 {
+				continue
+			}
+			gopts := []GOpt{probeOpt}
+			if l.set {
+				gopts = []GOpt{{Kind: "maxparams", N: 7}, {Kind: "maxparams", N: l.n}, probeOpt}
+			}
+			add(gopts, []Pat{manyWildcards(n)}, []Op{{Kind: "create", Via: "VOnly", Key: 0, Handler: true}}, "wildcard-limit")
 		}
 	}
 	// exhaustive: all annotation sequences of length <= 3 over {k0:=1, k0:=2, k0:=nil, k1:=1}, then read both keys
